@@ -64,9 +64,9 @@ Definition res_of_sx {T} (f : sx -> T) (x : sx) : res T :=
 
 Definition rule_of_sx (x : sx) : rule :=
   {| r_decision := sx_str (sx_nth 0 x); r_pattern := sx_str (sx_nth 1 x);
-     r_message := opt_of_sx sx_str (sx_nth 2 x) |}.
+     r_message := opt_of_sx sx_str (sx_nth 2 x); r_exact := sx_bool (sx_nth 3 x) |}.
 Definition sx_of_rule (r : rule) : sx :=
-  L [A (r_decision r); A (r_pattern r); sx_opt A (r_message r)].
+  L [A (r_decision r); A (r_pattern r); sx_opt A (r_message r); sx_of_bool (r_exact r)].
 Definition config_of_sx (x : sx) : config sx sx :=
   {| c_shell := sx_nth 0 x;
      c_mcp := map rule_of_sx (sx_list (sx_nth 1 x));
